@@ -233,7 +233,26 @@ class TraceInterp(Interp):
             if isinstance(recv, Res) and name in ("unwrap", "expect") and recv.ok:
                 return recv.v
             if isinstance(recv, (Opt, Res)) and name in ("unwrap", "is_some", "is_none", "is_ok", "is_err", "ok", "cloned", "copied"):
-                return super().eval(e, env)
+                # decided here: handing the node back to the base evaluator would evaluate the receiver
+                # (and record its effects) a second time
+                if isinstance(recv, Opt):
+                    if name == "unwrap":
+                        if not recv.some:
+                            raise Unanalysable("unwrap() on None")
+                        return recv.v
+                    if name in ("is_some", "is_none"):
+                        return recv.some == (name == "is_some")
+                    if name in ("cloned", "copied"):
+                        return recv
+                else:
+                    if name == "unwrap":
+                        raise Unanalysable("unwrap() on Err")
+                    if name in ("is_ok", "is_err"):
+                        return recv.ok == (name == "is_ok")
+                    if name == "ok":
+                        from rusteval import Some, NONE
+                        return Some(recv.v) if recv.ok else NONE
+                raise Unanalysable(f".{name}() on {recv!r}")
             args = [self.eval(a, env) for a in e["args"]]
             return self.method(recv, name, e.get("turbofish"), args, e)
         if t == "Lit" and e.get("kind") in ("float",):
